@@ -32,7 +32,9 @@ def one(d: pathlib.Path):
         for p in props:
             rc = subprocess.run([str(VERIF / "check"), p, "--repo", tmp], capture_output=True, text=True, env=env)
             if rc.returncode != 0:
-                bad.append(f"{p}:exit{rc.returncode}")
+                import re
+                lines = [l.strip() for l in rc.stdout.splitlines() if re.match(r"\s+C\d\d\.R\d+ at ", l) or "ANALYSIS-ERROR" in l]
+                bad.append(f"{p}:exit{rc.returncode} [{lines[0][:200] if lines else rc.stdout[-200:]}]")
         return d.name, "ok" if not bad else "ALARM", " ".join(bad)
     finally:
         shutil.rmtree(tmp, ignore_errors=True)
